@@ -91,11 +91,22 @@ def check(case, ctx):
     if isinstance(G, LibRaised):
         return
 
-    # reachability classes
-    reach = [[i == j or not M.is_zero(S[i][j]) for j in range(n)] for i in range(n)]
-    comp = {}
-    for i in range(n):
-        comp[i] = frozenset(j for j in range(n) if reach[i][j] and reach[j][i])
+    # mutual-reachability classes, by graph search over the edges (not over closure values: with
+    # signed weights two paths may cancel).  An edge whose accumulated weight cancelled to exactly
+    # zero may or may not count as an edge: both readings give a correct decomposition.
+    def classes(edge):
+        reach = [[i == j or edge(i, j) for j in range(n)] for i in range(n)]
+        for k in range(n):
+            for i in range(n):
+                if reach[i][k]:
+                    for j in range(n):
+                        if reach[k][j]:
+                            reach[i][j] = True
+        return {i: frozenset(j for j in range(n) if reach[i][j] and reach[j][i]) for i in range(n)}
+
+    listed = {(ix[sym(i)], ix[sym(j)]) for i, j, w in case["edges"]}
+    comp = classes(lambda i, j: not M.is_zero(A[i][j]))
+    comp_all = classes(lambda i, j: (i, j) in listed)
     comps = set(comp.values())
     cyclic = [c for c in comps if len(c) > 1 or not M.is_zero(A[min(c)][min(c)])]
     cross = any(comp[i] != comp[j] and not M.is_zero(A[i][j]) for i in range(n) for j in range(n))
@@ -134,13 +145,14 @@ def check(case, ctx):
     blocks = ctx.call("blocks", lambda: G.blocks)
     if not isinstance(blocks, LibRaised):
         have = [frozenset(ix[x] for x in blk) for blk in blocks]
-        ctx.check("blocks|partition", sorted(map(sorted, have)) == sorted(map(sorted, comps)) and sum(map(len, have)) == n, lambda: f"blocks {[sorted(b) for b in have]} are not the strongly connected components {[sorted(c) for c in comps]}")
+        ok_part = sum(map(len, have)) == n and sorted(map(sorted, have)) in (sorted(map(sorted, comps)), sorted(map(sorted, set(comp_all.values()))))
+        ctx.check("blocks|partition", ok_part, lambda: f"blocks {[sorted(b) for b in have]} are not the strongly connected components {[sorted(c) for c in comps]}")
         pos = {}
         for k, blk in enumerate(have):
             for i in blk:
                 pos[i] = k
         if len(pos) == n:
-            bad = [(nodes[i], nodes[j]) for i in range(n) for j in range(n) if not M.is_zero(A[i][j]) and comp[i] != comp[j] and not pos[i] < pos[j]]
+            bad = [(nodes[i], nodes[j]) for i in range(n) for j in range(n) if not M.is_zero(A[i][j]) and pos[i] != pos[j] and not pos[i] < pos[j]]
             ctx.check("blocks|order", not bad, lambda: f"edges {bad} go from a later block to an earlier one")
         bk = ctx.call("buckets", lambda: G.buckets)
         if not isinstance(bk, LibRaised) and len(pos) == n:
